@@ -77,6 +77,13 @@ def lattice(name):
         first = dict(tspan=[1, 12], period="month", vspan=[0, 100], fspan=[10, 90])
         for v in nest_intervals((0, 14, 16, 20, 80, 100)):
             L.append((dict(config=[first, dict(tspan=[1, 6], period="month", vspan=list(v))]), span_coords(v), "two"))
+        # ... and the second member going from no fail span to ever narrower fail spans (wider and narrower than the first one's)
+        for f in (None, (0, 100), (5, 95), (10, 90), (12, 20), (14, 16)):
+            m2 = dict(tspan=[1, 6], period="month", vspan=[14, 16])
+            if f is not None:
+                m2["fspan"] = list(f)
+            L.append((dict(config=[first, m2]), span_coords(f), "two_f"))
+            L.append((dict(config=[dict(first, tspan=[7, 12]), m2]), span_coords(f), "two_f_disjoint"))
     elif name == "spike_test":
         for method in ("average", "differential"):
             for s in (None, 3, 2, 1, 0.5, 0):
